@@ -212,6 +212,28 @@ func (r *Run) Write(dir string) error {
 	gw.Flush()
 	cf.Close()
 	gf.Close()
+	// the modelled entry points are functions of their arguments: running a sample of the cases again, in reverse
+	// order and after all the others, must give the same results (no state carried from call to call)
+	if len(r.cases) > 0 {
+		first := make([]string, 0, 2048)
+		idx := make([]int, 0, 2048)
+		stride := len(r.cases)/2000 + 1
+		for i := len(r.cases) - 1; i >= 0; i -= stride {
+			e := r.cases[i].Entry
+			if e >= 70 && e < 100 { // scenarios under virtual time are not replayed
+				continue
+			}
+			idx = append(idx, i)
+			first = append(first, RunGo(r.cases[i]))
+		}
+		for k := len(idx) - 1; k >= 0; k-- {
+			if again := RunGo(r.cases[idx[k]]); again != first[k] {
+				r.Fail("result-depends-on-earlier-calls", trunc(r.cases[idx[k]].Line(), 1500),
+					"the same call gave another result when repeated after other calls: "+firstDiff(first[k], again))
+				break
+			}
+		}
+	}
 	keys := make([]string, 0, len(r.Hist))
 	for k := range r.Hist {
 		keys = append(keys, k)
